@@ -18,6 +18,11 @@
 //       -> "slots <first> <n> <d_slots> <d_bit> <n_reported>"
 //   vh_digest slots2 <len> <i>:<j> ...      the same with blocks = first two element indices
 //       -> "slots2 <i> <j> <n> <d_slots> <d_bit> <n_reported>"
+//   vh_digest types           utils::get_type_size on a fixed list of type expressions (the
+//       same list, in the same order, is UtilCases/PackCases.type_cases on the Coq side):
+//       bool address address_payable payable string bytes rational, uintN / intN for
+//       N = 0..=264 and 65535, bytesN for N = 0..=255, a mapping, a function type, and an
+//       expression that is not a type            -> one "<name> <size|PANIC>" per line
 //   vh_digest seqs            explicit cases from stdin, one sequence of sizes per line
 //       (sizes are the bit sizes of the declared types; sizes that no Solidity type has are
 //       built as Type::Uint(size) / Type::Int(size) directly)
@@ -238,6 +243,40 @@ fn cmd_slots2(len: usize, blocks: &[String]) {
     }
 }
 
+fn cmd_types() {
+    let mut cases: Vec<(String, Expression)> = vec![];
+    let ty = |t: Type| Expression::Type(l0(), t);
+    cases.push(("bool".into(), ty(Type::Bool)));
+    cases.push(("address".into(), ty(Type::Address)));
+    cases.push(("address_payable".into(), ty(Type::AddressPayable)));
+    cases.push(("payable".into(), ty(Type::Payable)));
+    cases.push(("string".into(), ty(Type::String)));
+    cases.push(("bytes".into(), ty(Type::DynamicBytes)));
+    cases.push(("rational".into(), ty(Type::Rational)));
+    let ns: Vec<u16> = (0..=264u16).chain(std::iter::once(65535u16)).collect();
+    for n in &ns {
+        cases.push((format!("uint{}", n), ty(Type::Uint(*n))));
+    }
+    for n in &ns {
+        cases.push((format!("int{}", n), ty(Type::Int(*n))));
+    }
+    for n in 0..=255u8 {
+        cases.push((format!("bytes{}", n), ty(Type::Bytes(n))));
+    }
+    cases.push((
+        "mapping".into(),
+        ty(Type::Mapping(l0(), Box::new(ty(Type::Uint(8))), Box::new(ty(Type::Bool)))),
+    ));
+    cases.push(("function".into(), ty(Type::Function { params: vec![], attributes: vec![], returns: None })));
+    cases.push(("variable".into(), Expression::Variable(ident(0))));
+    for (name, e) in cases {
+        match catch_unwind(AssertUnwindSafe(|| utils::get_type_size(e))) {
+            Ok(n) => println!("{} {}", name, n),
+            Err(_) => println!("{} PANIC", name),
+        }
+    }
+}
+
 fn cmd_seqs() {
     let stdin = io::stdin();
     let stdout = io::stdout();
@@ -263,8 +302,9 @@ fn main() {
         Some("slots") => cmd_slots(num(2), num(3), num(4)),
         Some("slots2") => cmd_slots2(num(2), &args[3..]),
         Some("seqs") => cmd_seqs(),
+        Some("types") => cmd_types(),
         _ => {
-            eprintln!("usage: vh_digest line <maxlen> <from> <to> | slots <len> <from> <to> | slots2 <len> i:j ... | seqs");
+            eprintln!("usage: vh_digest line <maxlen> <from> <to> | slots <len> <from> <to> | slots2 <len> i:j ... | seqs | types");
             std::process::exit(2);
         }
     }
